@@ -2,7 +2,7 @@
 use egverif::fw::*;
 use embedded_graphics::pixelcolor::BinaryColor;
 use embedded_graphics::prelude::*;
-use embedded_graphics::primitives::{Line, PrimitiveStyle};
+use embedded_graphics::primitives::{Line, PrimitiveStyleBuilder, StrokeAlignment};
 use serde::{Deserialize, Serialize};
 use std::collections::BTreeSet;
 
@@ -77,15 +77,20 @@ fn check(c: &Case, obs: &mut Obs) {
     // stroked line
     let thin: BTreeSet<(i64, i64)> = p.iter().copied().collect();
     let len = (len2 as f64).sqrt();
-    for &w in &c.widths {
-        let px: Vec<(i64, i64)> = line.into_styled(PrimitiveStyle::with_stroke(BinaryColor::On, w)).pixels().take(4_000_000).map(|q| (q.0.x as i64, q.0.y as i64)).collect();
+    // every stroke alignment (documented as ignored for lines) must satisfy the clauses; long lines: Center only
+    let alignments: &[StrokeAlignment] = if major > 300 { &[StrokeAlignment::Center] } else { &[StrokeAlignment::Center, StrokeAlignment::Inside, StrokeAlignment::Outside] };
+    for (&w, &al) in c.widths.iter().flat_map(|w| alignments.iter().map(move |a| (w, a))) {
+        let style = PrimitiveStyleBuilder::new().stroke_color(BinaryColor::On).stroke_width(w).stroke_alignment(al).build();
+        let px: Vec<(i64, i64)> = line.into_styled(style).pixels().take(4_000_000).map(|q| (q.0.x as i64, q.0.y as i64)).collect();
+        let w_al = format!("{w} {:?}", al);
+        let w_al = w_al.as_str();
         let set: BTreeSet<(i64, i64)> = px.iter().copied().collect();
         obs.count("stroked_lines", 1);
         if set.len() != px.len() {
-            obs.fail("no-pixel-twice", format!("w={w}: {} pixels, {} distinct", px.len(), set.len()));
+            obs.fail("no-pixel-twice", format!("w={w_al}: {} pixels, {} distinct", px.len(), set.len()));
         }
         if !thin.is_subset(&set) {
-            obs.fail("contains-thin-line", format!("w={w}: {:?} missing", thin.difference(&set).next()));
+            obs.fail("contains-thin-line", format!("w={w_al}: {:?} missing", thin.difference(&set).next()));
         }
         if w == 1 && px != p {
             obs.fail("width-1-equals-points", format!("{} pixels vs {} points", px.len(), p.len()));
@@ -109,15 +114,15 @@ fn check(c: &Case, obs: &mut Obs) {
             }
         }
         if worst_perp > w as f64 / 2.0 + 2.5 + EPS {
-            obs.fail("within-w/2+2.5-of-ideal-line", format!("w={w}: a pixel is {:.3} px from the ideal line", worst_perp));
+            obs.fail("within-w/2+2.5-of-ideal-line", format!("w={w_al}: a pixel is {:.3} px from the ideal line", worst_perp));
         }
         if worst_over > 1.0 + EPS {
-            obs.fail("within-one-pixel-of-the-ends", format!("w={w}: a pixel lies {:.3} px beyond an end", worst_over));
+            obs.fail("within-one-pixel-of-the-ends", format!("w={w_al}: a pixel lies {:.3} px beyond an end", worst_over));
         }
         if len >= 2.0 {
             let width = if hi >= lo { hi - lo + 1.0 } else { 0.0 };
             if width + EPS < w as f64 - 1.0 {
-                obs.fail("at-least-w-1-wide-at-the-middle", format!("w={w}: {:.3} px wide at the middle", width));
+                obs.fail("at-least-w-1-wide-at-the-middle", format!("w={w_al}: {:.3} px wide at the middle", width));
             }
             obs.max("max_perp_beyond_half_width_milli_px", ((worst_perp - w as f64 / 2.0).max(0.0) * 1000.0) as u64);
             obs.max("max_overshoot_milli_px", (worst_over * 1000.0) as u64);
@@ -183,7 +188,7 @@ fn main() {
     egverif::fw::main(Prop {
         id: "C17",
         level: "exploration",
-        rule: "every line of the listed finite domain once (every stroke width of the case's list inside, counter stroked_lines); thin line: first/last point, count, unit major steps, minor steps <= 1, Euclidean distance to the ideal line <= 1/2 (exact integer test); stroked line: superset of the thin line, no duplicates, distance <= w/2+2.5, overshoot <= 1, width at the middle >= w-1 (perpendicular extent of pixel centres whose projection is within 1 px of the midpoint, plus one pixel), width 1 equals points(); f64 with 1e-9 slack in favour of the code",
+        rule: "every line of the listed finite domain once (every stroke width of the case's list x 3 stroke alignments inside, counter stroked_lines); thin line: first/last point, count, unit major steps, minor steps <= 1, Euclidean distance to the ideal line <= 1/2 (exact integer test); stroked line: superset of the thin line, no duplicates, distance <= w/2+2.5, overshoot <= 1, width at the middle >= w-1 (perpendicular extent of pixel centres whose projection is within 1 px of the midpoint, plus one pixel), width 1 equals points(); f64 with 1e-9 slack in favour of the code",
         assumptions: &["'random long lines' of the quantifier are replaced by a deterministic boundary-value product", "distance clauses are not asserted for zero-length lines (no ideal line)"],
         parts: |_| vec![PartSpec::new("all", "verif")],
         run_part,
